@@ -115,7 +115,12 @@ def run(tier):
         if z is not None:
             body, keep, n, src = meta["c%d:1" % pi]
             ck.count("census_against_no_iterations")
-            left = {k: (z.get(k, 0), a.get(k, 0)) for k in churn.VANISH[body[0]] if a.get(k, 0) != z.get(k, 0)}
+            left = {}
+            for spec in churn.VANISH[body[0]]:
+                k, _, plus = spec.partition("+")
+                allowed = min(keep, n) if plus == "keep" else 0
+                if a.get(k, 0) != z.get(k, 0) + allowed:
+                    left[k] = (z.get(k, 0), a.get(k, 0), "expected %d more than with no iterations" % allowed)
             if left:
                 ck.violation("UnreachableRetained(%s)" % ",".join(sorted(left)),
                              {"body": body, "keep": keep, "N": n, "source": src,
